@@ -21,7 +21,7 @@ try:
     if "--skip-baseline" not in flags:
         r = sh("/venv/bin/python /verif/tools/baseline.py %s" % wt)
         out["baseline"] = r.stdout.strip().splitlines()[-1] if r.returncode == 0 else "BROKEN: " + r.stdout[-400:]
-    demo = os.path.join(seed, "demo.py")
+    demo = os.path.join(os.path.abspath(seed), "demo.py")
     if os.path.exists(demo):
         a = sh("PYTHONPATH=%s /venv/bin/python %s" % (wt, demo), cwd="/tmp")
         b = sh("PYTHONPATH=/repo /venv/bin/python %s" % demo, cwd="/tmp")
